@@ -258,6 +258,9 @@ TYS = "ild"
 CXX_TY = {"i": "int", "l": "long", "d": "double", "v": "void",
           # the move-sensitive class: parameter declared by value / const& / &&
           "m": "av::MStr", "mc": "const av::MStr&", "mr": "av::MStr&&",
+          # the JSON-like class (a number or an array; Json(std::initializer_list<Json>) accepts a Json itself): only a
+          # bound value of bind / bind_return, received by a parameter declared Json / const Json&
+          "j": "av::Json", "jc": "const av::Json&",
           # reference results: T& / const T& to the target's pool object
           "ri": "int&", "rl": "long&", "rd": "double&", "ki": "const int&", "kl": "const long&", "kd": "const double&",
           # declared parameter types of QL targets (and hence of retype's T_type): the string-like class Str (converting
@@ -320,6 +323,8 @@ def lit(v):
     t, n = v
     if t == "m":
         return "av::MStr(%d)" % n
+    if t == "j":
+        return "av::Json(%d)" % n
     if t == "d":
         s = "%s%d.%d" % ("-" if n < 0 else "", abs(n) // 10, abs(n) % 10)
     elif t == "l":
@@ -343,6 +348,8 @@ def conv(t, v):
     s, n = decay(v)
     if t[0] == "m" or s == "m":
         return ("m", n)      # MStr to MStr only
+    if t[0] == "j" or s == "j":
+        return ("j", n)      # Json to Json only
     if s == "d" and t == "d":
         return (t, n)
     if s == "d":
@@ -437,6 +444,22 @@ class ExprC10:
         if k == "B":
             _, loc, bs, f = e
             # odd bound values are passed as named variables (lvalues) that are overwritten after the adaptor is built
+            if any(len(b) == 3 for b in bs):
+                # bound types spelled explicitly (bind.h: "the types of the arguments can optionally be specified"):
+                # bind<I, F, T&, ...>(f, x, ...) / bind<F, const T&, ...>(f, x, ...) — a reference-typed bound argument
+                # is the pool object x itself; F = decltype of the functor expression
+                fx = ExprC10.cxx(f)
+                tys, vals = [], []
+                for b in bs:
+                    if len(b) == 3:
+                        code, n, cellid = b
+                        tys.append(("const %s&" if code[0] == "k" else "%s&") % CXX_TY[code[1]])
+                        vals.append("av::setcell<%s>(%d, %s)" % (CXX_TY[code[1]], cellid, lit((code[1], n))))
+                    else:
+                        tys.append(CXX_TY[b[0]])
+                        vals.append(lit(b))
+                targs = ([] if loc == -1 else [str(loc)]) + ["decltype(%s)" % fx] + tys
+                return "sigc::bind<%s>(%s, %s)" % (", ".join(targs), fx, ", ".join(vals))
             vals = ", ".join(("av::lv(%s)" % lit(b)) if b[1] % 2 else lit(b) for b in bs)
             if loc == -1:
                 return "sigc::bind(%s, %s)" % (ExprC10.cxx(f), vals)
@@ -895,6 +918,57 @@ class GenC10:
         e, sig, args = self.wrap_simple(e, wrap, sig, args)
         return {"expr": e, "sig": tuple(sig), "args": tuple(args), "route": route, "ret": base_ty(ExprC10.natural(e))}
 
+    # ---------------------------------------------------------------- Json bound values, reference-typed bound arguments
+    def bound_case(self, n, route, shape, wrap=None):
+        """directed bind / bind_return cases over bound values that are not plain numbers.
+        shape "json": bind / bind<I>(f, b...) with at least one av::Json among the bound values (f declares Json /
+        const Json& there, or takes everything by value): f must receive the bound number, not an array wrapping it;
+        "json-ret": bind_return(f, Json(n)) returns that number;
+        "ref": bind<I, F, T&...>(f, x...) / bind<F, const T&...>(f, x...) with the bound types spelled as references: a
+        target taking const T&... must receive the pool objects x themselves."""
+        r = self.rng
+        self.nid = 0
+        sig = tuple(r.choice(TYS) for _ in range(n))
+        args = tuple(self.value(t, p) for p, t in enumerate(sig))
+        if shape == "json-ret":
+            f = self.leaf(n, "any", allow_throw=False, force_ref=False)
+            e = ("BR", ("j", self.value("i", 8)[1]), f)
+        else:
+            k = 1 + r.below(min(3, 6 - n))
+            loc = -1 if r.chance(0.4) else r.below(n + 1)
+            p = n if loc == -1 else loc
+            special = r.below(k)
+            bs, btys = [], []
+            for j in range(k):
+                if shape == "json":
+                    if j == special or r.chance(0.3):
+                        bs.append(("j", self.value("i", 6 + j)[1]))
+                        btys.append(r.choice(["j", "jc"]))
+                    else:
+                        bs.append(self.value(r.choice(TYS), 6 + j))
+                        btys.append(r.choice(TYS))
+                else:
+                    if j == special or r.chance(0.6):
+                        t = r.choice(TYS)
+                        bs.append((r.choice("rk") + t, self.value(t, 6 + j)[1], 100 + j))
+                        btys.append(t if r.chance(0.8) else r.choice(TYS))
+                    else:
+                        bs.append(self.value(r.choice(TYS), 6 + j))
+                        btys.append(r.choice(TYS))
+            ret = r.choice(["v", "i", "l", "d"])
+            if shape == "json":
+                tys = [r.choice(TYS) for _ in range(n)]
+                tys = tys[:p] + btys + tys[p:]
+                f = ("V", self.fresh(), 0, ret) if r.chance(0.3) else ("L", self.fresh(), 0, ret, tuple(tys), r.chance(0.4))
+            else:
+                # const T&... target that records WHICH object each parameter is
+                tys = [r.choice(TYS) for _ in range(n)]
+                tys = tys[:p] + btys + tys[p:]
+                f = ("PL", self.fresh(), 0, ret, tuple(tys), r.chance(0.4))
+            e = ("B", loc, tuple(bs), f)
+        e, sig, args = self.wrap_simple(e, wrap, sig, args)
+        return {"expr": e, "sig": tuple(sig), "args": tuple(args), "route": route, "ret": base_ty(ExprC10.natural(e))}
+
     # ---------------------------------------------------------------- move-sensitive arguments (MStr)
     # categories of an MStr argument as a call operator sees it: "rv" rvalue (T_arg deduced as MStr), "rvE" rvalue under
     # an explicit T_arg = MStr&& (directly inside slot<R(MStr&&)>), "lv", "clv"; numeric positions are "n"
@@ -1113,7 +1187,7 @@ def c10_retype_temporaries(c):
             walk(e[2], [par_base(p) for p in e[1]])
         elif k == "B":
             loc = len(tys) if e[1] == -1 else e[1]
-            walk(e[3], tys[:loc] + [b[0] for b in e[2]] + tys[loc:])
+            walk(e[3], tys[:loc] + [decay(b)[0] for b in e[2]] + tys[loc:])
         elif k == "H":
             idx = len(tys) - 1 if e[1] == -1 else e[1]
             walk(e[2], [t for j, t in enumerate(tys) if j != idx])
@@ -1126,6 +1200,14 @@ def c10_retype_temporaries(c):
 
     walk(c["expr"], [t[0] for t in (c["sig"] if c["route"] != "D" else [a[0] for a in c["args"]])])
     return out if found[0] else None
+
+
+def c10_has_ref_bound(e):
+    """is there a bind node with a reference-typed bound argument (bound types spelled explicitly)"""
+    if e[0] == "B" and any(len(b) == 3 for b in e[2]):
+        return True
+    return any(c10_has_ref_bound(x) for x in e[1:]
+               if isinstance(x, tuple) and x and isinstance(x[0], str) and x[0].isupper() and len(x[0]) <= 3)
 
 
 def c10_norm_impl(s):
@@ -1233,7 +1315,8 @@ class ExprC11:
             return ["M", str(i), "1" if der else "0", "1" if cm else "0", "1" if retv else "0", str(len(pks))] + list(pks)
         if k == "B":
             _, loc, bs, f = e
-            return ["B", str(loc), str(len(bs))] + ["%s:%d" % (b[0], b[1]) for b in bs] + ExprC11.tokens(f)
+            # bound kinds "R" / "C" (type spelled as Obj& / const Obj&) hold the object like std::ref / std::cref do
+            return ["B", str(loc), str(len(bs))] + ["%s:%d" % (b[0].lower(), b[1]) for b in bs] + ExprC11.tokens(f)
         if k == "H":
             return ["H", str(e[1])] + ExprC11.tokens(e[2])
         if k == "RT":
@@ -1291,7 +1374,15 @@ class ExprC11:
             names = []
             for b in bs:
                 n = "%s%d" % ("s" if b[0] == "v" else "b", b[1] % 100)
-                names.append(n if b[0] == "v" else ("std::ref(%s)" if b[0] == "r" else "std::cref(%s)") % n)
+                names.append(n if b[0] in "vRC" else ("std::ref(%s)" if b[0] == "r" else "std::cref(%s)") % n)
+            if any(b[0] in "RC" for b in bs):
+                # the bound types spelled explicitly: bind<I, F, Obj&, ...>(f, o, ...) / bind<F, const Obj&, ...>(f, o, ...)
+                fx = ExprC11.cxx(f)
+                obj = lambda b: "av::DObj" if (len(b) > 3 and b[3] == "d") else "av::Obj"
+                tys = [{"v": "%s", "R": "%s&", "C": "const %s&", "r": "std::reference_wrapper<%s>",
+                        "c": "std::reference_wrapper<const %s>"}[b[0]] % obj(b) for b in bs]
+                targs = ([] if loc == -1 else [str(loc)]) + ["decltype(%s)" % fx] + tys
+                return "sigc::bind<%s>(%s, %s)" % (", ".join(targs), fx, ", ".join(names))
             if loc == -1:
                 return "sigc::bind(%s, %s)" % (ExprC11.cxx(f), ", ".join(names))
             return "sigc::bind<%d>(%s, %s)" % (loc, ExprC11.cxx(f), ", ".join(names))
@@ -1362,7 +1453,7 @@ def c11_f7(case):
             n = len(cats)
             if k == "B":
                 loc = n if e[1] == -1 else e[1]
-                add = ["clv" if b[0] == "c" else "lv" for b in e[2]]
+                add = ["clv" if b[0] in "cC" else "lv" for b in e[2]]
                 return walk(e[3], cats[:loc] + add + cats[loc:], False)
             idx = n - 1 if e[1] == -1 else e[1]
             return walk(e[2], [c for j, c in enumerate(cats) if j != idx], False)
@@ -1493,7 +1584,7 @@ class IdealC11:
             _, loc, bs, f = e
             # a reference stays a reference through the adaptor; afterwards it is an lvalue
             items = [(d, "clv" if cat in ("clv",) else ("lv" if cat in ("lv", "xvE") else "clv")) for d, cat in items]
-            add = [((("s" if b[0] == "v" else "b"), b[1] % 100), "clv" if b[0] == "c" else "lv") for b in bs]
+            add = [((("s" if b[0] == "v" else "b"), b[1] % 100), "clv" if b[0] in "cC" else "lv") for b in bs]
             n = len(items)
             pos = n if loc == -1 else loc
             return self.sim(f, items[:pos] + add + items[pos:], False)          # inserted at I / appended
@@ -1537,7 +1628,7 @@ def c11_tracked(case):
     seen = []
     for s in case["slots"]:
         for b in ExprC11.bounds(s):
-            if b[0] in "rc" and ("b", b[1] % 100) not in seen:
+            if b[0] in "rcRC" and ("b", b[1] % 100) not in seen:
                 seen.append(("b", b[1] % 100))
     return ids + seen
 
@@ -1584,7 +1675,7 @@ def c11_monitor(case, obs):
             ly, vy = y.split(":")
             by_value_decl = ly.startswith("e") and case["sig"][int(ly[1:])] == "v"
             if ly != "x" and lx != ly and not by_value_decl:
-                kind = "the emitter's object" if ly.startswith("e") else "the std::ref-bound object"
+                kind = "the emitter's object" if ly.startswith("e") else "the reference-bound object (std::ref / std::cref / reference-typed bound argument)"
                 what = "parameter %d" % pos
                 if pos == 0 and int(ida) in c11_member_ids(case):
                     what = "`this` of the member function (parameter 0: the object argument)"
@@ -1598,7 +1689,7 @@ def c11_monitor(case, obs):
         if of[1] != jf[1]:
             return "after the emission %s has value %s, expected %s (modifications by the slots)" % (of[0], of[1], jf[1])
         if jf[0].startswith("b") and (of[2] != jf[2] or of[3] != jf[3]):
-            return "std::ref-bound object %s was copied/moved: %s (only declared by-value parameters may: %s)" % (
+            return "reference-bound object %s was copied/moved: %s (only declared by-value parameters may: %s)" % (
                 of[0], ":".join(of[2:]), ":".join(jf[2:]))
     return None
 
@@ -1626,7 +1717,7 @@ def c11_member_targets(e, below=False, bk=None):
     if k == "L":
         return []
     if k == "B":
-        return c11_member_targets(e[3], True, e[2][0][0] if e[1] == 0 else None)
+        return c11_member_targets(e[3], True, e[2][0][0].lower() if e[1] == 0 else None)
     out = []
     for x in e[1:]:
         if isinstance(x, tuple) and x and isinstance(x[0], str) and len(x[0]) <= 2 and x[0].isupper():
@@ -1779,13 +1870,17 @@ class GenC11:
                     return skip()
                 loc = -1 if kind == "B" else (pos if pos is not None and pos <= n else r.below(n + 1))
                 if bspec is not None:
-                    bs = (self.bound(bspec[0], bspec[1]),)
+                    # one bound object as given, or a list of them: (kind, class) with kind v / r / c / R / C
+                    specs = bspec if isinstance(bspec, list) else [bspec]
+                    if n + len(specs) > 6:
+                        return skip()
+                    bs = tuple(self.bound(k_, c_) for k_, c_ in specs)
                 elif clss is not None:
                     bs = tuple(self.bound(None, r.choice("bd")) for _ in range(k))
                 else:
                     bs = tuple(self.bound() for _ in range(k))
                 p = n if loc == -1 else loc
-                add = ["clv" if b[0] == "c" else "lv" for b in bs]
+                add = ["clv" if b[0] in "cC" else "lv" for b in bs]
                 cl2 = None if clss is None else list(clss[:p]) + [b[3] for b in bs] + list(clss[p:])
                 return ("B", loc, bs, self.expr(after[:p] + add + after[p:], False, rest, want, nomut, allow_f7, cl2))
             if n < 1:
